@@ -32,7 +32,7 @@ def timeout(tier):
 def floors(tier):
     return {"compared": 100000, "rejected_both": 1000, "set:transitions": 25,
             "set:ref_transitions": 25, "index_family": 100, "unclosed": 50,
-            "M3.next_ring_state": 1000, "f1_witness_seen": 1, "g2.compared": 1000}
+            "M3.next_ring_state": 1000, "f1_witness_seen": 1, "g2.compared": 1000, "flag_variants_compared": 5000}
 
 
 class Judge(object):
@@ -43,11 +43,10 @@ class Judge(object):
         self.tname = None
 
     def set_table(self, name, table):
-        self.sf.set_semantic_constraints(dict(table))
-        self.table = self.sf.get_semantic_constraints()
+        self.table = tablegen.set_table_hostile(self.sf, table, self.ctx.rng, self.ctx)
         self.tname = name
 
-    def one(self, x, src):
+    def one(self, x, src, flags_too=False):
         ctx, sf = self.ctx, self.sf
         payload = {"selfies": x if len(x) < 3000 else x[:3000] + "...", "table": self.table, "src": src}
         if len(x) >= 3000:
@@ -77,6 +76,15 @@ class Judge(object):
                         "decoder returns %r, the reference derivation reaches invalid symbol %s" % (out[:80], rej))
             ctx.case((self.tname, x), False)
             return
+        if flags_too:
+            # attribute=True and compatible=True (no legacy symbol is reached in an accepted string) return the same text
+            for fl in ({"attribute": True}, {"compatible": True}, {"attribute": True, "compatible": True}):
+                r2 = call_guard(lambda: sf.decoder(x, **fl), expected=(sf.DecoderError,))
+                got = r2[1][0] if (r2[0] == "ok" and fl.get("attribute")) else (r2[1] if r2[0] == "ok" else None)
+                ctx.count("flag_variants_compared")
+                if got != out and not (fl.get("compatible") and any(t.endswith("expl]") or "_" in t or "Expl" in t for t in tokens_with_dots(x))):
+                    ctx.finding("flags-change-the-molecule", dict(payload, flags=fl, output=out[:500]),
+                                "decoder(x) = %r but decoder(x, %r) = %r" % (out[:200], fl, repr(r2)[:200]))
         status, mol, detail = judge_output(out, None, accept=lambda m: compare_with_reference(m, ref))
         ctx.count("compared")
         for t in ref.transitions:
@@ -119,7 +127,7 @@ def run(ctx):
         for tn in tnames:
             j.set_table(tn, scopes.TABLES[tn])
             for x in scopes.enumerate_scope(syms, L, ctx.shard, ctx.nshards):
-                j.one(x, "G1:" + sname)
+                j.one(x, "G1:" + sname, flags_too=(sname == "index" and L <= 4 and "[nop]" in x))
     ctx.notes["g1"] = {s: {"max_len": L, "tables": t, "strings_per_table": scopes.scope_size(scopes.SETS[s], L)}
                        for s, L, t in plan}
 
@@ -182,7 +190,7 @@ def run(ctx):
                 x = g.deep(rng.randint(2, 40))
             else:
                 x = g.string(rng.choice([1, 1, 2, 3]), rng.choice([10, 40, 150, 600]))
-            if j.one(x, "G2") is not None:
+            if j.one(x, "G2", flags_too=True) is not None:
                 ctx.count("g2.compared")
 
     # G3
@@ -199,7 +207,7 @@ def run(ctx):
             x = "".join(mutate_symbols(toks, rng, pool))
             if ".." in x or x.startswith(".") or x.endswith("."):
                 pass  # empty fragments are legal input
-            j.one(x, "G3")
+            j.one(x, "G3", flags_too=True)
             ctx.count("g3.cases")
 
     for t in MON.transitions:
